@@ -776,6 +776,11 @@ func (x *Exec) mergeStates(es []edge) State {
 			if t, ok := e.st[k]; ok {
 				return t
 			}
+			if x.init[k] == "" && x.svSort[k] != "" {
+				// a local cell of an inlined callee that only exists along some of the
+				// joining paths: its value on the others is arbitrary
+				x.init[k] = x.smt.fresh(k, x.svSort[k])
+			}
 			return x.init[k]
 		}
 		t := get(es[len(es)-1])
@@ -1135,7 +1140,10 @@ func (x *Exec) loopModified(h *ssa.BasicBlock, ord int) []string {
 	}
 	x.refWrites, x.freshRefs = savedRW, savedFR
 	// new state variables first touched inside the loop must also be known outside
-	newSorts := x.svSort
+	newSorts := map[string]string{}
+	for k, v := range x.svSort {
+		newSorts[k] = v
+	}
 	// restore
 	x.smt.lines = x.smt.lines[:savedLines]
 	x.smt.owners = x.smt.owners[:savedLines]
@@ -1157,7 +1165,13 @@ func (x *Exec) loopModified(h *ssa.BasicBlock, ord int) []string {
 	x.safeN = savedSafe
 	x.callN = savedCallN
 	x.init = savedInit
-	x.svSort = savedSort
+	// the sort table is shared with the enclosing and the inlined executions: restore
+	// it in place
+	for k := range x.svSort {
+		if _, ok := savedSort[k]; !ok {
+			delete(x.svSort, k)
+		}
+	}
 	for _, n := range out {
 		if _, ok := x.svSort[n]; !ok {
 			x.getSV(n, newSorts[n])
